@@ -14,4 +14,5 @@ MONITORS = {
     "C10": ["monitors.c10"],
     "C11": ["monitors.c11"],
     "C12": ["monitors.c12"],
+    "C16": ["monitors.c16"],
 }
